@@ -74,6 +74,7 @@ structure St where
   s : State
   cur : List Nat             -- current origin version per key
   bigs : List (Nat × Nat)    -- (key, version) stored in the rock cache_dir only
+  writes : List Nat          -- keys in the order they were written (fetched responses stored)
   out : List (Nat × String)  -- (operation index, token)
 
 def curOf (st : St) (k : Nat) : Nat := (st.cur[k]?).getD 1
@@ -84,7 +85,8 @@ def isBig (sc : Sc) (n : Nat) : Bool := sc.inst == "r" && n > 32768
 
 /-- a fetched response becomes the public entry of its worker: older entries are invalidated everywhere; it is written to the shared
 cache when the slot can be locked -/
-def beginWrite (st : St) (w k v : Nat) (appendable : Bool) : St × Bool :=
+def beginWrite (st0 : St) (w k v : Nat) (appendable : Bool) : St × Bool :=
+  let st := { st0 with writes := st0.writes ++ [k] }
   let s1 := freeKey hashId st.s k
   let ok := !(s1.anchors k).locked
   let s2 := openW hashId s1 w k v
@@ -122,7 +124,10 @@ def seqOp (sc : Sc) (st : St) (i : Nat) (op : Op) : St :=
   | .R w k =>
     let s1 := openR hashId st.s w k
     if s1.nextR > st.s.nextR then
-      let rdBig := (st.bigs.any (fun p => p.1 == k && p.2 == (st.s.anchors k).ver))
+      -- rock: the disker writes asynchronously; a write that finds the slot still locked by the previous write of the key fails and
+      -- releases the entry everywhere, so after two writes of a key a predicted hit may also be a miss
+      let rdBig := (st.bigs.any (fun p => p.1 == k && p.2 == (st.s.anchors k).ver)) ||
+                   (sc.inst == "r" && (st.writes.filter (· == k)).length ≥ 2)
       finishReader { st with s := s1 } i st.s.nextR rdBig
     else missFetch sc st i w k
   | .P _ k => doPurge st i k
@@ -185,7 +190,7 @@ def go (sc : Sc) : Nat → Nat → List Op → St → St
     | _ => go sc fuel (i + 1) rest (seqOp sc st i op)
 
 def simulate (sc : Sc) : String :=
-  let st := go sc 40 0 sc.ops { s := State.init, cur := [], bigs := [], out := [] }
+  let st := go sc 40 0 sc.ops { s := State.init, cur := [], bigs := [], writes := [], out := [] }
   let toks := (List.range sc.ops.length).map (fun i =>
     match st.out.find? (fun p => p.1 == i) with
     | some p => p.2
